@@ -64,6 +64,58 @@ def run(c, chk):
     has = any(True for p in ex.explore(gv) if p.end == 'ret' and any(e.kind == 'call' and e.name == 'cfg_free_value' for e in p.events))
     chk.ok('R9.2', 'cfg_opt_getval', 'frees the values when CFGF_RESET is set' if has else 'has no RESET branch', nontrivial=False)
 
+    # ---- R9.5: removal keeps the order of the rest ---------------------------------------------
+    chk.rule('R9.5', 'removing a section shifts every later section down by exactly one slot and shrinks the count by one')
+    rm = c.need('cfg_opt_rmnsec')
+    ex3 = sym.Explorer(c.modules, max_visits=3, mod_sets=c.mod_sets, max_paths=50000)
+    nrm = 0
+    badrm = None
+    for p in ex3.explore(rm):
+        if p.end != 'ret' or p.retval != sym.C0:
+            continue
+        nrm += 1
+        idx = ('p', 'index')
+        moves = [e for e in p.events if e.kind == 'call' and e.name.startswith('llvm.memmove')]
+        shifts = [e for e in p.events if e.kind == 'store' and e.addr[0] == 'idx' and sym.render(e.addr[1]) == 'opt->values']
+        dec = [e for e in p.events if e.kind == 'store' and e.field == 'nvalues' and sym.root_of(e.addr) == ('p', 'opt')]
+        if not dec or not (dec[-1].val[0] == 'bin' and dec[-1].val[1] == 'add' and dec[-1].val[3] == ('c', -1)):
+            badrm = (p, 'the value count is not decremented by one')
+            break
+        is_last = any(cn[0] == 'icmp' and sym.render(cn[2]) == '(index add 1)' and ((cn[1] == 'eq') == t or (cn[1] == 'ne') != t) for cn, t, _ in p.assume)
+        if moves:
+            m = moves[0]
+            d, s_, ln = m.args[0], m.args[1], m.args[2]
+            okd = d[0] == 'idx' and sym.render(d[1]) == 'opt->values' and sym.render(d[2]) == 'index'
+            oks = s_[0] == 'idx' and sym.render(s_[1]) == 'opt->values' and sym.render(s_[2]) == '(index add 1)'
+            okl = False
+            if ln[0] == 'bin' and ln[1] == 'mul':
+                k, other = (ln[2], ln[3]) if sym.is_const(ln[2]) else (ln[3], ln[2])
+                r_ = sym.render(other)
+                okl = k == ('c', 8) and 'sub index' in r_ and 'add -1' in r_
+            if not (okd and oks and okl):
+                badrm = (p, 'the tail move is memmove(%s, %s, %s), expected (&values[index], &values[index+1], 8*(n-index-1))' % (sym.render(d), sym.render(s_), sym.render(ln)))
+                break
+        elif shifts:
+            for e in shifts:
+                i = e.addr[2]
+                v = e.val
+                want_src = plus1(i)
+                oksh = v[0] == 'ld' and v[1][0] == 'idx' and sym.render(v[1][1]) == 'opt->values' and sym.norm(v[1][2]) == sym.norm(want_src)
+                if not oksh:
+                    badrm = (p, 'slot %s is filled from %s instead of from the slot after it' % (sym.render(i), sym.render(v)))
+                    break
+            if badrm:
+                break
+        elif not is_last:
+            # neither a block move nor a shifting loop on a path that removes a non-last section
+            pass
+    if badrm:
+        chk.fail('R9.5', 'rmnsec-shift', c.where(rm), 'cfg_opt_rmnsec(): %s - the remaining sections are reordered, duplicated or lost' % badrm[1],
+                 witness=[repr(e) for e in badrm[0].events[-8:]])
+    elif nrm:
+        chk.ok('R9.5', 'cfg_opt_rmnsec: %d removing paths' % nrm, 'later slots move down by one (memmove of n-index-1 slots from index+1 to index), count decremented', sample=True)
+    chk.floor('R9.5 removing paths', nrm, 1)
+
     # ---- R9.3 --------------------------------------------------------------------------------
     sites = {}
     for f in c.confuse.funcs.values():
@@ -121,6 +173,14 @@ def run(c, chk):
                     chk.fail('R9.4', 'dropped-result:%s:%s' % (fname, n_), c.where(call),
                              '%s() ignores the result of %s() and reports success regardless' % (fname, n_))
     chk.floor('R9.4 wrapper call sites', nw, 15)
+
+
+def plus1(i):
+    if sym.is_const(i):
+        return ('c', i[1] + 1)
+    if i[0] == 'bin' and i[1] == 'add' and sym.is_const(i[3]):
+        return ('bin', 'add', i[2], ('c', i[3][1] + 1))
+    return ('bin', 'add', i, ('c', 1))
 
 
 def find_flags_addr(cn):
